@@ -103,13 +103,13 @@ def jsonable(x: Any) -> Any:
 
 
 def absorb(res: core.Result, part: str, run_ref: str, out: Dict[str, Any], configs: Sequence[Any],
-           init_ref: Optional[str] = None, min_outcomes: int = 2) -> None:
+           init_ref: Optional[str] = None, min_outcomes: int = 2, real_world: bool = False) -> None:
     """Fold one exploration into the Result: counters, audit, violations (each
     re-executed twice before it is reported), vacuity guard."""
     st: explorer.Stats = out["stats"]
     for e in out["errors"]:
         res.harness_errors.append(f"[{part}] {e[:600]}")
-    if out["replay_mismatches"]:
+    if out["replay_mismatches"] and not real_world:
         res.harness_errors.append(
             f"[{part}] nondeterminism: {out['replay_mismatches']} of {out['replayed']} audited executions "
             f"gave a different observation when re-run: {out['mismatch_examples'][:1]}"
@@ -119,6 +119,7 @@ def absorb(res: core.Result, part: str, run_ref: str, out: Dict[str, Any], confi
 
     # confirm violations
     confirmed = 0
+    unconfirmed = 0
     for v in st.violations:
         cfg = configs[v["cfg_index"]]
         ok = True
@@ -131,6 +132,11 @@ def absorb(res: core.Result, part: str, run_ref: str, out: Dict[str, Any], confi
                 break
             if explorer.digest_of(obs) != v["digest"]:
                 ok = False
+                if real_world:
+                    # executions against the real OS are not reproducible by construction: a violation
+                    # counts only if it shows up again in both confirmation runs
+                    unconfirmed += 1
+                    break
                 res.harness_errors.append(
                     f"[{part}] violation did not reproduce: cfg={cfg} choices={v['choices']}"
                 )
@@ -164,6 +170,7 @@ def absorb(res: core.Result, part: str, run_ref: str, out: Dict[str, Any], confi
         "violation_signatures": dict(st.violation_sigs),
         "wall_s": round(out["wall_s"], 2),
         "counters": dict(st.extra),
+        "unconfirmed_violations_dropped": unconfirmed,
     }
     res.parts[part] = p
     cov = res.coverage
